@@ -8,7 +8,7 @@ CONFIG = {'gen': [],
          'single-bit pattern of every field (also bits outside the widths) and random field assignments of UUID, UUIDv1, UUIDv2, UUIDv8, '
          'GUID through Marshal->Unmarshal / ToBytes->FromRawBytes; (c) binary inputs of length 0..24; (d) malformed text: corpus of '
          'historical witnesses, groups of other widths, moved/duplicated/deleted/inserted characters, inner white space, truncations, '
-         'wrong bracket pairs; distinct = distinct input line; non-trivial = implementation returned a value',
+         'wrong bracket pairs; distinct = distinct input line; non-trivial = implementation returned a value Half of the decoding/parsing cases (chosen by the arguments) use a receiver that has already decoded or parsed another value with every field non-zero.',
  'assumptions': ['text inputs are ASCII: strings.TrimSpace/ToLower are modelled on bytes < 0x80 (Unicode white space and case tables are '
                  'not modelled)',
                  'strconv.ParseUint(_,16,n), encoding/hex.DecodeString, strings.Split/Replace, fmt %0Nx and regexp.MatchString on the five '
